@@ -220,3 +220,64 @@ def order_preserved(ctx):
     loops = [x for x in own_nodes(f.node) if isinstance(x, ast.For) and isinstance(x.iter, ast.Call) and (dotted(x.iter.func) or '').endswith('executor.map')]
     ok = len(loops) == 1 and any(isinstance(c, ast.Call) and norm(c.func) == 'parts.append' and norm(c.args[0]) == norm(loops[0].target) for c in ast.walk(loops[0]))
     ctx.ob(f, 'for part in executor.map(...): parts.append(part)', ok, 'legacy parts must be collected in submission order (executor.map preserves it)')
+
+
+@rule('C01.e', ['C01'], floor=5)
+def stream_is_read_to_eof_from_its_position(ctx):
+    """Non-seekable uploads read the stream until a read returns nothing (a short read is
+    not EOF); capability probes do not move the stream; size discovery of a seekable
+    stream records the position first and restores it on every path; the single-request
+    body of a seekable stream is sized from the current position."""
+    f = ctx.func('upload.UploadNonSeekableInputManager.yield_upload_part_bodies')
+    loops = [n for n in own_nodes(f.node) if isinstance(n, ast.While)]
+    ctx.need(loops, 'part loop of the non-seekable manager not found')
+    lp = loops[0]
+    exits = [n for n in ast.walk(lp) if isinstance(n, (ast.Break, ast.Return)) and q.in_loop(n) is lp]
+    reads = [c for c in ast.walk(lp) if isinstance(c, ast.Call) and (dotted(c.func) or '') == 'self._read']
+    var = reads[0]._parent.targets[0].id if len(reads) == 1 and isinstance(reads[0]._parent, ast.Assign) else None
+    ok = isinstance(lp.test, ast.Constant) and bool(lp.test.value) and len(exits) == 1 and var is not None \
+        and q.equivalent(' and '.join(('' if pol else 'not ') + f'({norm(e)})' for e, pol in q.guards(exits[0]) if any(a is lp for a in _anc(e))) or 'True', f'not {var}')
+    ctx.ob(f, f'the part loop ends only when a read returns nothing (if not {var}: break)', ok,
+           'a short read is not end of stream: ending the loop on anything else drops the tail of the stream while the upload still succeeds')
+    ys = [y for y in ast.walk(lp) if isinstance(y, ast.Yield)]
+    g = ctx.cfg(f)
+    ok = len(ys) == 1 and len(reads) == 1 and g.all_dominate(g.nodes_of(reads[0]), g.nodes_of(ys[0]), g.NORMAL) and q.in_loop(ys[0]) is lp
+    ctx.ob(f, 'each iteration yields the data it just read', ok, 'data read must be yielded exactly once')
+    p = ctx.func('upload.UploadNonSeekableInputManager.get_put_object_body')
+    rd = [c for c in own_calls(p.node) if isinstance(c.func, ast.Attribute) and c.func.attr == 'read' and norm(c.func.value) == 'fileobj']
+    ok = len(rd) == 1 and not rd[0].args and isinstance(rd[0]._parent, ast.BinOp) and norm(rd[0]._parent.left) == 'self._initial_data'
+    ctx.ob(p, 'single-request body = self._initial_data + fileobj.read() (to EOF)', ok, 'the already buffered prefix and the rest of the stream must both be sent, in that order')
+    r = ctx.func('upload.UploadNonSeekableInputManager._read')
+    joins = [n for n in own_nodes(r.node) if isinstance(n, ast.BinOp) and isinstance(n.op, ast.Add) and norm(n.left) == 'self._initial_data' and 'fileobj.read(' in norm(n.right)]
+    ctx.ob(r, '_read: buffered prefix first, then the stream', len(joins) == 1, 'order of buffered and fresh data')
+    # probes
+    for qn in ('compat.seekable', 'compat.readable'):
+        pf = ctx.func(qn)
+        for c in own_calls(pf.node):
+            if isinstance(c.func, ast.Attribute) and c.func.attr in ('seek', 'read', 'truncate', 'write'):
+                ok = c.func.attr == 'seek' and [norm(a) for a in c.args] == ['0', '1']
+                ctx.ob(pf, c, ok, 'a capability probe must not move or consume the stream (only seek(0, 1) is a no-op)')
+    s_ = ctx.func('upload.UploadSeekableInputManager.provide_transfer_size')
+    g = ctx.cfg(s_)
+    tells = [c for c in own_calls(s_.node) if (dotted(c.func) or '') == 'fileobj.tell']
+    seeks = [c for c in own_calls(s_.node) if (dotted(c.func) or '') == 'fileobj.seek']
+    start = tells[0]._parent.targets[0].id if tells and isinstance(tells[0]._parent, ast.Assign) else None
+    restore = [c for c in seeks if len(c.args) == 1 and norm(c.args[0]) == start]
+    end_seek = [c for c in seeks if [norm(a) for a in c.args] == ['0', '2']]
+    ok = bool(tells) and len(restore) == 1 and len(end_seek) == 1 and g.all_dominate(g.nodes_of(tells[0]), g.nodes_of(end_seek[0]), g.NORMAL) \
+        and g.must_pass(g.nodes_of(end_seek[0]), g.nodes_of(restore[0]), [g.exit], g.NORMAL)
+    ctx.ob(s_, 'size discovery: start = tell(); seek(0, 2); end = tell(); seek(start)', ok, 'the stream must be back at its call-time position before any body is read')
+    sz = [c for c in own_calls(s_.node) if (dotted(c.func) or '').endswith('provide_transfer_size')]
+    ok = len(sz) == 1 and isinstance(sz[0].args[0], ast.BinOp) and isinstance(sz[0].args[0].op, ast.Sub) and norm(sz[0].args[0].right) == start
+    ctx.ob(s_, 'size = end position - start position', ok, 'the upload covers the bytes from the call-time position to EOF')
+    b = ctx.func('upload.UploadSeekableInputManager._get_put_object_fileobj_with_full_size')
+    vals = [v for st, v in q.local_defs(b, 'size') if isinstance(v, ast.AST)]
+    ctx.ob(b, 'full size = fileobj.tell() + transfer size', len(vals) == 1 and norm(vals[0]) == 'fileobj.tell() + transfer_future.meta.size', f'{[norm(v) for v in vals]}')
+    i = ctx.func('utils.ReadFileChunk.__init__')
+    vals = [norm(v) for fn, v in ctx.cls('utils.ReadFileChunk').init_attrs.get('_start_byte', []) if fn is i]
+    ctx.ob(i, 'ReadFileChunk starts at the current position of its file object', vals == ['self._fileobj.tell()'], f'{vals}')
+
+
+def _anc(n):
+    from ..ir import ancestors
+    return ancestors(n)
